@@ -708,6 +708,93 @@ func corruptingPeer(run *evid.Run, n int) {
 	}
 }
 
+// proxyRangeTruncation: a range read through a proxy hop (client -> server -> client -> upstream
+// server) whose upstream answer is cut short in transit (the declared length stays). The proxy's
+// backend reader then fails midway; whatever the proxy does with that, the caller must not see a clean
+// end of stream with fewer bytes than the range it asked for.
+func proxyRangeTruncation(run *evid.Run, n int) {
+	mem := ocimem.New()
+	var mu sync.Mutex
+	cut := -1 // bytes of the next ranged answer that get through; -1: untouched
+	inner := &stack.InProc{Handler: ociserver.New(mem, nil), Tap: func(req *http.Request, resp *http.Response) *http.Response {
+		mu.Lock()
+		defer mu.Unlock()
+		if req.Method != "GET" || resp.StatusCode != 206 || cut < 0 {
+			return resp
+		}
+		body, _ := io.ReadAll(resp.Body)
+		resp.Body.Close()
+		if cut < len(body) {
+			body = body[:cut]
+		}
+		resp.Body = io.NopCloser(bytes.NewReader(body)) // Content-Length header and field stay as declared
+		return resp
+	}}
+	innerClient, err := ociclient.New("upstream.test", &ociclient.Options{Insecure: true, Transport: inner})
+	if err != nil {
+		panic(err)
+	}
+	top, err := ociclient.New("proxy.test", &ociclient.Options{Insecure: true, Transport: &stack.InProc{Handler: ociserver.New(innerClient, nil)}})
+	if err != nil {
+		panic(err)
+	}
+	for i := 0; i < n; i++ {
+		rng := run.Rand(18, uint64(i))
+		size := []int{60, 500, 9000, 20000, 70000}[i%5]
+		content := make([]byte, size)
+		for k := range content {
+			content[k] = byte('a' + (k*7+i)%26)
+		}
+		repo := fmt.Sprintf("pr/r%d", i%5)
+		if _, err := mem.PushBlob(bg, repo, desc(content), bytes.NewReader(content)); err != nil {
+			panic(err)
+		}
+		o0 := int64(rng.IntN(size / 2))
+		o1 := o0 + 1 + int64(rng.IntN(size-int(o0)-1))
+		want := content[o0:o1]
+		mu.Lock()
+		cut = -1
+		if i%4 != 0 {
+			cut = rng.IntN(len(want)) // strictly shorter than the range
+		}
+		c := cut
+		mu.Unlock()
+		run.Eval(1)
+		w := map[string]any{"content_len": size, "range": fmt.Sprintf("[%d,%d)", o0, o1), "upstream_body_cut_to": c}
+		var r ociregistry.BlobReader
+		var gerr error
+		if !run.Case("total/proxy-range", w, func() { r, gerr = top.GetBlobRange(bg, repo, desc(content).Digest, o0, o1) }) {
+			continue
+		}
+		run.Count("proxy_range_reads", 1)
+		if c >= 0 {
+			run.Count("proxy_range_reads_truncated_upstream", 1)
+		}
+		run.Distinct(fmt.Sprintf("proxy-range/len=%s/truncated=%v", lenClass(size), c >= 0))
+		if gerr != nil {
+			if c < 0 {
+				run.Violation("clean-read-failed/proxy-range", "an untouched range read through a proxy hop failed: "+gerr.Error(), w)
+			}
+			continue
+		}
+		var data []byte
+		var rerr error
+		run.Case("total/proxy-range-read", w, func() { data, rerr = io.ReadAll(r) })
+		r.Close()
+		if rerr != nil {
+			if c < 0 {
+				run.Violation("clean-read-failed/proxy-range", "an untouched range read through a proxy hop ended in "+rerr.Error(), w)
+			}
+			run.Count("proxy_range_reads_ended_in_error", 1)
+			continue
+		}
+		if !bytes.Equal(data, want) {
+			w["bytes_read"] = len(data)
+			run.Violation(fmt.Sprintf("range-short-clean-eof/proxy/len=%s", lenClass(size)), fmt.Sprintf("range [%d,%d) through a proxy hop ended in a clean EOF with %d bytes; the range has %d (upstream answer cut to %d bytes)", o0, o1, len(data), len(want), c), w)
+		}
+	}
+}
+
 // ---------- concurrent phase
 
 func concurrentPhase(run *evid.Run, round int, kind string) {
@@ -812,6 +899,8 @@ func main() {
 		}
 	}
 	rawPaths(run, run.N(80, 1200))
+	proxyRangeTruncation(run, run.N(60, 1500))
+	run.FloorCounter("proxy_range_reads_truncated_upstream", 30)
 	corruptingPeer(run, run.N(700, 20000))
 	rounds := run.N(30, 600)
 	for r := 0; r < rounds; r++ {
